@@ -2,6 +2,7 @@ package c14
 
 import (
 	"fmt"
+	"os"
 	"runtime/debug"
 	"sort"
 	"strings"
@@ -237,23 +238,39 @@ func entryHasObjectSet(ops []document.HistoryOperation) bool {
 }
 
 // entrySetsNonEmptyText reports whether a stacked entry contains an
-// Object.Set whose value is a Text with content (finding C14a: the wire form
-// of a Text value carries no content, so the peer restores an empty text).
+// Object.Set whose value is a Text that holds any node, live or tombstoned
+// (finding C14a: the wire form of a Text value carries no nodes at all, so
+// the peer restores an empty text; even when every node is a tombstone a
+// later restore-by-identity recreates them there in a different order).
 func entrySetsNonEmptyText(ops []document.HistoryOperation) bool {
 	for _, h := range ops {
 		if set, ok := h.Op.(*operations.Set); ok {
-			if tx, ok := set.Value().(*crdt.Text); ok && tx.String() != "" {
-				return true
+			if tx, ok := set.Value().(*crdt.Text); ok {
+				for _, n := range tx.Nodes() {
+					if v := n.Value(); v != nil && v.Value() != "" {
+						return true
+					}
+				}
 			}
 		}
 	}
 	return false
 }
 
+// excluding reports whether the trigger of the given finding is excluded by
+// construction: always, unless VERIF_NO_EXCLUSIONS is set (replay of a known
+// finding) or the id is listed in VERIF_C14_ALLOW (investigation).
+func excluding(id string) bool {
+	if kit.NoExclusions() {
+		return false
+	}
+	return !strings.Contains(","+os.Getenv("VERIF_C14_ALLOW")+",", ","+id+",")
+}
+
 // guard rewrites a step that would trigger F2; it returns the step to run
 // ("" op = skip) and the finding id.
 func guard(d *document.Document, s prog.Step) (prog.Step, string) {
-	if kit.NoExclusions() {
+	if !excluding("F2") {
 		return s, ""
 	}
 	switch s.Op {
